@@ -636,6 +636,18 @@ def r02_14(ctx):
     delegate(ctx, c03.r03_5, lambda c: c.startswith('_depend_on/'))
 
 
+def r02_15(ctx):
+    """R02.15 what is written is the state a fresh instance computes from the file: (a) a choice is registered as a dependent of
+    every member unconditionally (C03 R03.1) - a member with a conditional prompt and no `depends on` otherwise leaves the
+    cached selection stale, and write_config() emits a state no reload reproduces; (b) set_value() stores the user value
+    whatever the option currently evaluates to (C03 R03.9) - a fast path for `already has that value` drops an assignment of
+    a file whose later lines change the default."""
+    from . import c03
+    from .common import delegate
+    delegate(ctx, c03.r03_1, lambda c: c.startswith("Choice/registration"))
+    delegate(ctx, c03.r03_9, lambda c: c.startswith("Symbol.set_value/"))
+
+
 def rules():
-    return [("R02.14", r02_14, 4), ("R02.13", r02_13, 1), ("R02.12", r02_12, 8), ("R02.11", r02_11, 3), ("R02.1", r02_1, 8), ("R02.2", r02_2, 8), ("R02.3", r02_3, 9), ("R02.4", r02_4, 3), ("R02.5", r02_5, 5),
+    return [("R02.15", r02_15, 2), ("R02.14", r02_14, 4), ("R02.13", r02_13, 1), ("R02.12", r02_12, 8), ("R02.11", r02_11, 3), ("R02.1", r02_1, 8), ("R02.2", r02_2, 8), ("R02.3", r02_3, 9), ("R02.4", r02_4, 3), ("R02.5", r02_5, 5),
             ("R02.6", r02_6, 3), ("R02.7", r02_7, 3), ("R02.8", r02_8, 2), ("R02.9", r02_9, 6), ("R02.10", r02_10, 3)]
